@@ -152,11 +152,19 @@ void mtSleep(u32 ms)
 
 #endif // OS
 
+#ifdef BEE2_VERIF
+mt_verif_point_i mtVerifPoint = 0;
+/* the points "after the winning CAS" and "before the publication" enclose fn() */
+#define fn() (VERIF_POINT(VP_ONCE_CAS_AFTER, &t), fn(),\
+	VERIF_POINT(VP_ONCE_PUB_BEFORE, once))
+#endif
+
 bool_t mtCallOnce(size_t* once, void (*fn)())
 {
 	size_t t;
 	// попытки вызова
 	do
+		VERIF_POINT_PRE(VP_ONCE_CAS_BEFORE, once)
 		// удается захватить триггер?...
 		if ((t = mtAtomicCmpSwap(once, 0, SIZE_MAX)) == 0)
 		{
@@ -164,12 +172,18 @@ bool_t mtCallOnce(size_t* once, void (*fn)())
 			fn(), mtAtomicCmpSwap(once, SIZE_MAX, 1);
 			break;
 		}
+		VERIF_POINT_ELSE(VP_ONCE_CAS_AFTER, &t)
 	// ... нет, ожидаем обработки захвата в другом потоке
 	while (t == SIZE_MAX);
+	VERIF_POINT(VP_ONCE_PUB_AFTER, once);
 	// завершить
 	ASSERT(*once == 1);
 	return TRUE;
 }
+
+#ifdef BEE2_VERIF
+#undef fn
+#endif
 
 /*
 *******************************************************************************
